@@ -4,6 +4,7 @@ import Katib.Lemmas.BudgetPlans
 import Katib.Lemmas.ExpStatus
 import Katib.Props.C05
 import Katib.Props.C01Parallel
+import Katib.Props.C06Running
 /-!
 # C04: quiescence implies a verdict (partial)
 
@@ -483,4 +484,48 @@ example :
   · intro j hj; subst hj; decide
   · intro d hd; subst hd; rfl
   · intro s hs; subst hs; decide
+end Katib.Ctl
+
+namespace Katib.Ctl
+open Katib Katib.Exp
+
+/-- **C04_quiescent_verdict_on_schedules**: the same statement about the stores that the simulator reaches.  For every
+    list of operations (reconciles of the three controllers in any order, every typed kind read from an arbitrary earlier
+    snapshot, any fault mask and abort point, any environment events) in which the experiment's `maxTrialCount` is not edited
+    and nobody deletes Trials, the store `w` reached at the end satisfies, *by the invariants proved for every schedule*
+    (`C01_total`'s `WInv`, `C06_permanent`'s `TInv`, `C06_unavailable_not_running`), five of the assumed facts: Trial keys
+    are unique, `suggestionCount` equals the number of assignments, no Trial is under deletion, a MetricsUnavailable Trial is
+    not Running, and the Experiment's `maxTrialCount` is the initial one.  What remains assumed is listed: unique assignment
+    names (the algorithm service's contract), the Suggestion of an unfinished Experiment is not Succeeded (false under
+    arbitrarily lagging views, true for monotone caches), zero counters without Trials. -/
+theorem C04_quiescent_verdict_on_schedules (k : Key2) (m : Int) (hm1 : 1 ≤ m) (es : List ExpInit) (ops : List Op)
+    (hinit : ∀ e ∈ es, e.key = k → e.maxT = some m)
+    (hops : ∀ op ∈ ops, ∀ n, op ≠ .editMax k n) (hopd : ∀ op ∈ ops, ∀ k', op ≠ .userDelete k')
+    (now : Nat) (e : ExpO) :
+    let w := (run (Sim.init es) ops).cur
+    findExp w k = some e → 1 ≤ e.par → e.deleted = false →
+    (expPlan w k now).noWrites → (sugPlan w k {} now).noWrites → (∀ t ∈ trialsOf w k, (trialPlan w t.key now).noWrites) →
+    (∀ t ∈ trialsOf w k, ∀ j, findJob w t.key = some j → j.state ≠ .running) →
+    (∀ t ∈ trialsOf w k, ∀ j, findJob w t.key = some j → j.state = .succeeded →
+      (t.push = false → (dbOf w t.key.name).isEmpty = false) ∧
+      ((dbOf w t.key.name).isEmpty = false → (Metrics.getMetrics (dbOf w t.key.name) [objMetric]).isSome = true)) →
+    (∀ d, findDeploy w (infraKey k) = some d → d.ready = true) →
+    (∀ t ∈ trialsOf w k, (!obsAvailable t.st && tHas t .earlyStopped) = false) →
+    (∀ s, findSug w k = some s → sHas s .succeeded = false ∧ s.st.names.Nodup) →
+    (trialsOf w k = [] → activeCount e.st = 0 ∧ completedCount e.st = 0) →
+    isCompleted e.st.conds = true := by
+  intro w he hpar hdel qE qS qT envJ envM envD nw wfS wf0
+  have wfMU := C06_unavailable_not_running es ops
+  have hm0 : 0 ≤ m := by omega
+  have hI : SInv k m (run (Sim.init es) ops) := run_inv hm0 ops (init_inv k m es hinit) hops
+  have hT : SInvT (run (Sim.init es) ops) := run_invT ops (init_invT es) hopd
+  obtain ⟨hW, p, hX⟩ := hI.1
+  have hmax : e.maxT = some m := (hX e he).1
+  refine C04_quiescent_verdict_partial w k now e m he hmax hm1 hpar hdel qE qS qT envJ envM envD nw hW.tkeys ?_ ?_ wf0
+  · intro t ht
+    exact ⟨(hT.1.1 t (mem_trialsOf.1 ht).1).1, wfMU t (mem_trialsOf.1 ht).1⟩
+  · intro s hs
+    obtain ⟨a, b⟩ := wfS s hs
+    exact ⟨a, (hW.sug s hs).2.2, b⟩
+
 end Katib.Ctl
